@@ -579,6 +579,113 @@ fn big_release(ctx: &mut Ctx, seed: u64) {
     }
 }
 
+/// Several string literals of many MiB read through ONE deserializer (elements of a `Vec<Value>`,
+/// fields of a struct, members of one embedded value, consecutive stream documents): each value has
+/// a lifetime of its own — every string is read back in full after all the others were parsed, after
+/// clones were taken and after its siblings were dropped.
+fn big_strings(ctx: &mut Ctx, seed: u64) {
+    #[derive(serde::Deserialize)]
+    struct Two {
+        a: Value,
+        #[allow(dead_code)]
+        n: u8,
+        b: Value,
+    }
+    let mut r = Rng::new(seed);
+    let sizes: Vec<usize> = (0..3).map(|_| *r.pick(&[(8usize << 20) + 3, 9 << 20, (8 << 20) - 1, 1 << 20, (12 << 20) + 17, 70_000])).collect();
+    let make = |i: usize, n: usize| -> String {
+        let mut s = String::with_capacity(n + 8);
+        let unit = ["abcdefghijklmnopqrstuvw", "0123456789é", "zyx中wvu"][i % 3];
+        while s.len() < n {
+            s.push_str(unit);
+        }
+        s
+    };
+    let strs: Vec<String> = sizes.iter().enumerate().map(|(i, n)| make(i, *n)).collect();
+    let lit = |i: usize| format!("\"{}\"", strs[i]);
+    let same = |v: &Value, i: usize| -> bool { v.as_str().map(|s| s.len() == strs[i].len() && s == strs[i]).unwrap_or(false) };
+    let route = r.below(4);
+    ctx.ops(1);
+    let mut bad: Option<String> = None;
+    match route {
+        0 => {
+            let text = format!("[{},{},{}]", lit(0), lit(1), lit(2));
+            match sonic_rs::from_str::<Vec<Value>>(&text) {
+                Ok(mut v) => {
+                    drop(text);
+                    let c0 = v[0].clone();
+                    for i in 0..3 {
+                        if !same(&v[i], i) {
+                            bad = Some(format!("Vec<Value>[{}] of {} bytes", i, strs[i].len()));
+                        }
+                    }
+                    let last = v.pop().unwrap();
+                    drop(v);
+                    if !same(&c0, 0) || !same(&last, 2) {
+                        bad = Some("Vec<Value>: a clone / the last element after its siblings were dropped".into());
+                    }
+                }
+                Err(e) => bad = Some(format!("Vec<Value> rejected: {}", e)),
+            }
+        }
+        1 => {
+            let text = format!("{{\"a\":{},\"n\":1,\"b\":{}}}", lit(0), lit(1));
+            match sonic_rs::from_str::<Two>(&text) {
+                Ok(t) => {
+                    drop(text);
+                    if !same(&t.a, 0) || !same(&t.b, 1) {
+                        bad = Some("struct fields".into());
+                    }
+                    let Two { a, b, .. } = t;
+                    drop(b);
+                    if !same(&a, 0) {
+                        bad = Some("struct field a after b was dropped".into());
+                    }
+                }
+                Err(e) => bad = Some(format!("struct rejected: {}", e)),
+            }
+        }
+        2 => {
+            let text = format!("[1,{{\"x\":{},\"y\":[{},{}]}}]", lit(0), lit(1), lit(2));
+            match sonic_rs::from_str::<(u8, Value)>(&text) {
+                Ok((_, v)) => {
+                    drop(text);
+                    if !same(&v["x"], 0) || !same(&v["y"][0], 1) || !same(&v["y"][1], 2) {
+                        bad = Some("members of one embedded value".into());
+                    }
+                    let x = v["x"].clone();
+                    drop(v);
+                    if !same(&x, 0) {
+                        bad = Some("a member cloned out of the embedded value, after it was dropped".into());
+                    }
+                }
+                Err(e) => bad = Some(format!("tuple rejected: {}", e)),
+            }
+        }
+        _ => {
+            let text = format!("null {} {} {}", lit(0), lit(1), lit(2));
+            let mut got = vec![];
+            {
+                let mut st = sonic_rs::Deserializer::from_str(&text).into_stream::<Value>();
+                let _ = st.next();
+                for _ in 0..3 {
+                    if let Some(Ok(v)) = st.next() {
+                        got.push(v);
+                    }
+                }
+            }
+            drop(text);
+            if got.len() != 3 || (0..3).any(|i| !same(&got[i], i)) {
+                bad = Some("consecutive stream documents".into());
+            }
+        }
+    }
+    if let Some(what) = bad {
+        ctx.fail("big-string-changed", format!("{} (sizes {:?}): a string of a value read through the same deserializer as other big strings no longer reads as parsed", what, sizes));
+    }
+    ctx.class("drop:big-strings");
+}
+
 impl Check for C16 {
     fn id(&self) -> &'static str {
         "C16"
@@ -603,6 +710,9 @@ impl Check for C16 {
         if g.scale >= 0.5 {
             for _ in 0..g.count(16, 160) {
                 emit(Case::with("big-release", vec![], &[r.next() as i64]));
+            }
+            for _ in 0..g.count(16, 96) {
+                emit(Case::with("big-strings", vec![], &[r.next() as i64]));
             }
         }
         let n = g.count(32, 640);
@@ -645,6 +755,10 @@ impl Check for C16 {
                 ctx.class(&format!("template:{}", t % 10));
                 ctx.sample("permutations");
             }
+            "big-strings" => {
+                big_strings(ctx, c.p(0) as u64);
+                ctx.sample("big-strings");
+            }
             "big-release" => {
                 big_release(ctx, c.p(0) as u64);
                 ctx.sample("big-release");
@@ -665,6 +779,7 @@ impl Check for C16 {
             v.push("ledger:arena-checked");
             v.push("ledger:alloc-checked");
             v.push("ledger:big-document-released");
+            v.push("drop:big-strings");
         }
         v
     }
